@@ -327,7 +327,17 @@ def execute(sc, ctx):
                     ctx.hit("later_noise_reestimated")
                     m2, s2 = my_sigma_clip_stats(fr.data)
                     rel = 1e-9 if fr.data.dtype == np.float64 else 1e-4      # float32 frames accumulate in float32
-                    if not ctx.check(matches_reestimate(nm, ns, fr.data, rel), "estimates",
+                    ok_est = matches_reestimate(nm, ns, fr.data, rel)
+                    if not ok_est and any(m_ == 0.0 and s_ == 0.0 for m_, s_ in clip_estimates(data_before)):
+                        # the frame held data whose sigma-clipped estimate is exactly (0, 0) - what "no noise yet" looks
+                        # like to the library.  As for frames that hold only signals, "empty" is then ambiguous and the
+                        # requested parameters are accepted as well
+                        ctx.hit("nonempty_frame_with_zero_estimates")
+                        if kind == "noise":
+                            ok_est = _close(nm, x_mean) and _close(ns, x_std, 8)
+                        else:
+                            ok_est = _table_member(op, nm, ns, means, stds, mins, k, g, ctx)[0]
+                    if not ctx.check(ok_est, "estimates",
                                      "C11/estimates/later_noise_not_reestimated/%s" % dist,
                                      lambda: "noise_mean %r noise_std %r; sigma-clipped re-estimate %r %r" % (nm, ns, m2, s2)):
                         return
